@@ -36,6 +36,8 @@ import (
 	"sync"
 	"testing"
 	"time"
+
+	"github.com/oauth2-proxy/oauth2-proxy/v7/pkg/clock"
 )
 
 const c08CookieName = "_oauth2_proxy"
@@ -64,6 +66,14 @@ func c08EmailDomainOK(email string, domains []string) (bool, bool) {
 			return true, false
 		}
 		d = strings.ToLower(d)
+		if strings.TrimSpace(d) == "" {
+			// a blank list item (trailing comma, empty templated slot) names no domain: it matches nothing; only an
+			// "address" that ends with '@' + that blank text is left unjudged
+			if strings.HasSuffix(e, "@"+d) {
+				ambiguous = true
+			}
+			continue
+		}
 		if len(e) > len(d) && e[len(e)-len(d):] == d && e[len(e)-len(d)-1] == '@' {
 			return true, false
 		}
@@ -146,6 +156,11 @@ type c08RuleSet struct {
 	Ht       bool          // --htpasswd-file
 	HtGroups []string
 	ErrMode  string // page | json | button
+	// odd list shapes: Domains is what the operator's text means item by item (the reference reads that),
+	// RawFlags the literal --email-domain values (comma lists), CfgList the same list written in a config file
+	RawFlags []string
+	CfgList  bool
+	OneStore bool // built for one store only (alternating), to keep the number of instances down
 }
 
 // allowed is the reference decision for a session with that e-mail and those groups.
@@ -188,6 +203,20 @@ func c08RuleSets() []c08RuleSet {
 		{Name: "group+htpasswd", Domains: []string{"example.com"}, Groups: []string{"g1", "hg"}, Ht: true, HtGroups: []string{"hg"}, ErrMode: "page"},
 		{Name: "htpasswd-nogroup", Domains: []string{"example.com"}, Groups: []string{"g1"}, Ht: true, ErrMode: "button"},
 		{Name: "htpasswd-domain-only", Domains: []string{".example.com"}, Ht: true, HtGroups: []string{"hg"}, ErrMode: "json"},
+		// odd list shapes an operator (or a template with an empty slot) produces: only "*" means everybody
+		{Name: "trailing-comma", Domains: []string{"example.com", ""}, RawFlags: []string{"example.com,"}, OneStore: true, ErrMode: "page"},
+		{Name: "leading-comma", Domains: []string{"", "example.com"}, RawFlags: []string{",example.com"}, OneStore: true, ErrMode: "json"},
+		{Name: "doubled-comma", Domains: []string{"example.org", "", "example.com"}, RawFlags: []string{"example.org,,example.com"}, OneStore: true, ErrMode: "page"},
+		{Name: "blank-item", Domains: []string{"example.com", " "}, RawFlags: []string{"example.com, "}, OneStore: true, ErrMode: "page"},
+		{Name: "quoted-empty-item", Domains: []string{"example.com", ""}, RawFlags: []string{`"example.com",""`}, OneStore: true, ErrMode: "button"},
+		{Name: "config-file-empty-item", Domains: []string{"example.com", ""}, CfgList: true, OneStore: true, ErrMode: "page"},
+		{Name: "config-file-blank-only", Domains: []string{"nomatch.invalid", "", " "}, CfgList: true, OneStore: true, ErrMode: "json"},
+		{Name: "star-among-others", Domains: []string{"example.com", "*"}, RawFlags: []string{"example.com,*"}, OneStore: true, ErrMode: "page"},
+		{Name: "star-dot-only", Domains: []string{"*."}, OneStore: true, ErrMode: "page"},
+		{Name: "dot-only", Domains: []string{"."}, OneStore: true, ErrMode: "json"},
+		{Name: "star-without-dot", Domains: []string{"*example.com"}, OneStore: true, ErrMode: "page"},
+		{Name: "double-star", Domains: []string{"**", "*.*"}, RawFlags: []string{"**,*.*"}, OneStore: true, ErrMode: "page"},
+		{Name: "duplicates+upper", Domains: []string{"example.com", "EXAMPLE.COM", "example.com"}, RawFlags: []string{"example.com,EXAMPLE.COM,example.com"}, OneStore: true, ErrMode: "page"},
 	}
 }
 
@@ -249,6 +278,8 @@ func c08Subjects(run *vfRun) []*c08Subject {
 	add("u@example.org", "other")
 	add("u@com", "tld")
 	add("u@x.com", "tld")
+	add("u@*example.com", "wildcard-literal")
+	add("u@.", "dot-start")
 	add("u@*.example.com", "wildcard-literal")
 	add("u@*", "wildcard-literal")
 	add("*", "wildcard-literal")
@@ -320,17 +351,18 @@ func c08FamFlags(fam string) []string {
 }
 
 type c08World struct {
-	run            *vfRun
-	w              *vfWorld
-	ht             string
-	issuer         map[string]*vfProxy
-	insts          []*c08Inst
-	redisMu        sync.Mutex
-	owned          map[string]bool
-	noteMu         sync.Mutex
-	notes          map[string][]string
-	emptiedWitness []interface{}
-	symlinkWitness []interface{}
+	run             *vfRun
+	w               *vfWorld
+	ht              string
+	issuer          map[string]*vfProxy
+	insts           []*c08Inst
+	redisMu         sync.Mutex
+	owned           map[string]bool
+	noteMu          sync.Mutex
+	notes           map[string][]string
+	emptiedWitness  []interface{}
+	symlinkWitness  []interface{}
+	replacedWitness []interface{}
 }
 
 // withNewRedisKey runs f (a login) and returns the Redis key it created together with its value. Keys that other
@@ -363,8 +395,21 @@ func (cw *c08World) flags(r c08RuleSet, store, fam string) []string {
 	if store == "redis" {
 		f = append(f, "--redis-connection-url="+cw.w.RedisURL())
 	}
-	for _, d := range r.Domains {
-		f = append(f, "--email-domain="+d)
+	switch {
+	case r.CfgList:
+		var items []string
+		for _, d := range r.Domains {
+			items = append(items, fmt.Sprintf("%q", d))
+		}
+		f = append(f, "--config="+cw.w.File("c08-config-"+r.Name+"-"+store+".cfg", "email_domains = [ "+strings.Join(items, ", ")+" ]\n"))
+	case r.RawFlags != nil:
+		for _, v := range r.RawFlags {
+			f = append(f, "--email-domain="+v)
+		}
+	default:
+		for _, d := range r.Domains {
+			f = append(f, "--email-domain="+d)
+		}
 	}
 	if r.File != nil {
 		f = append(f, "--authenticated-emails-file="+cw.w.File("c08-emails-"+r.Name+"-"+store, c08FileText(r.File)))
@@ -1031,6 +1076,7 @@ func c08Reload(cw *c08World) {
 		}
 		rounds := run.Env.Pick(6, 30)
 		rng := mrand.New(mrand.NewSource(run.Env.Seed*31 + int64(len(store))))
+		var prevLines []c08FileLine
 		for round := 0; round < rounds; round++ {
 			canary := fmt.Sprintf("canary-%d@reload.test", round)
 			var lines []c08FileLine
@@ -1042,36 +1088,81 @@ func c08Reload(cw *c08World) {
 				}
 			}
 			lines = append(lines, c08FileLine{canary, "plain"})
-			how := "atomic write+rename"
-			if round%3 == 2 {
+			// how the new version arrives: rewritten in place, or prepared aside and renamed over the file — with a
+			// modification time of now, or OLDER than / EQUAL to the current file's (mv of a prepared copy, rsync -t,
+			// cp -p, restore from a backup), or with exactly the size of the version it replaces
+			how, mtime := "atomic write+rename", "now"
+			switch round % 6 {
+			case 1:
+				mtime = "older"
+			case 2, 5:
 				how = "in-place rewrite"
-				if err := os.WriteFile(path, []byte(c08FileText(lines)), 0o600); err != nil {
-					run.T.Fatalf("c08: %v", err)
+			case 3:
+				mtime = "equal"
+			case 4:
+				mtime = "older"
+				if prevLines != nil { // same size: the previous version with one address and the canary exchanged for others of equal length
+					lines = nil
+					for _, l := range prevLines {
+						switch {
+						case strings.HasPrefix(l.Addr, "canary-"):
+							continue
+						case l.Addr == "r2@reload.test":
+							l.Addr = "x2@reload.test"
+						case l.Addr == "x2@reload.test":
+							l.Addr = "r2@reload.test"
+						}
+						lines = append(lines, l)
+					}
+					lines = append(lines, c08FileLine{canary, "plain"})
+					how = "atomic write+rename, same size"
 				}
+			}
+			if run.Counter("replaced_list_never_reloaded") >= 2 {
+				mtime = "now" // verdict reached; do not wait another 4 s per round
+			}
+			prevLines = lines
+			if how == "in-place rewrite" {
+				c08WriteFile(run, path, how, c08FileText(lines))
 			} else {
 				tmp := path + ".tmp"
 				if err := os.WriteFile(tmp, []byte(c08FileText(lines)), 0o600); err != nil {
 					run.T.Fatalf("c08: %v", err)
+				}
+				if mtime != "now" {
+					fi, err := os.Stat(path)
+					if err != nil {
+						run.T.Fatalf("c08: %v", err)
+					}
+					mt := fi.ModTime()
+					if mtime == "older" {
+						mt = mt.Add(-time.Hour)
+					}
+					if err := os.Chtimes(tmp, mt, mt); err != nil {
+						run.T.Fatalf("c08: %v", err)
+					}
+					how += ", mtime " + mtime + " than/to the replaced file's"
 				}
 				if err := os.Rename(tmp, path); err != nil {
 					run.T.Fatalf("c08: %v", err)
 				}
 			}
 			// wait (bounded) until the new list is visible: the canary address exists in this version only
-			now := time.Now()
-			tok := vfMint(map[string]interface{}{"iss": cw.w.IdP.Issuer, "aud": "cid", "sub": "canary", "email": canary, "groups": []string{}, "preferred_username": "c",
-				"exp": now.Add(time.Hour).Unix(), "iat": now.Add(-time.Minute).Unix()}, vfMintOpts{})
-			visible := false
-			for k := 0; k < 400 && !visible; k++ {
-				if p.Do(vfGET("/oauth2/auth", "Authorization", "Bearer "+tok)).Code == 202 {
-					visible = true
-				} else {
-					time.Sleep(25 * time.Millisecond)
-				}
+			tries := 400
+			if mtime != "now" {
+				tries = 160
 			}
-			if !visible {
-				run.Inconclusive("e-mails file reload not visible after 10 s (" + how + ")")
+			if !cw.pollAuth(p, canary, true, tries) {
 				run.Eval("")
+				if mtime != "now" {
+					run.Count("replaced_list_never_reloaded", 1)
+					cw.noteMu.Lock()
+					cw.replacedWitness = append(cw.replacedWitness, map[string]interface{}{"flags": p.Flags, "store": store, "history": "e-mails file replaced: " + how, "file_after": c08FileText(lines),
+						"probe": "GET /oauth2/auth with a bearer token for the added address " + canary + " is still refused after 4 s"})
+					cw.noteMu.Unlock()
+				} else {
+					run.Inconclusive("e-mails file reload not visible after 10 s (" + how + ")")
+				}
 				continue
 			}
 			run.Count("reloads_observed", 1)
@@ -1093,6 +1184,12 @@ func c08Reload(cw *c08World) {
 			}
 		}
 		c08Emptied(cw, in, path, subs)
+	}
+	switch n := run.Counter("replaced_list_never_reloaded"); {
+	case n >= 2:
+		c08Violation(run, "c08:replaced-allow-list-never-reloaded", fmt.Sprintf("in %d independent replacements an e-mails file renamed into place with a modification time older than / equal to the replaced file's was not reloaded within 4 s: revoked addresses keep passing, added ones are refused", n), cw.replacedWitness)
+	case n == 1:
+		run.Inconclusive("one replacement of the e-mails file with an old modification time was not reloaded within 4 s (slow reload?)")
 	}
 	switch n := run.Counter("emptied_list_never_enforced"); {
 	case n >= 2:
@@ -1427,11 +1524,142 @@ func c08NoEmailLogins(cw *c08World) {
 	}
 }
 
+// c08RefreshChanges: the rules are applied to what the provider says NOW. Sessions are issued 3 h ago (imposed) at an
+// instance with --cookie-refresh=1h; then the identity changes at the IdP (groups claim omitted / emptied / replaced,
+// e-mail moved to a foreign or look-alike domain) and the browser keeps sending requests. The first request performs
+// the refresh (counted); from the next request on the browser must be judged on the refreshed attributes, whatever
+// cookies it was handed meanwhile. Controls: nothing changed, or changed within the rules, stay served.
+// Runs serially (it imposes the issue time through the global clock and scripts the IdP).
+func c08RefreshChanges(cw *c08World) {
+	run := cw.run
+	type scenario struct {
+		label  string
+		email  string      // e-mail after the change
+		groups interface{} // groups claim after the change: []string, or nil = claim omitted
+		judged bool
+	}
+	scenarios := []scenario{
+		{"unchanged", "u@example.com", []string{"g1"}, true},
+		{"groups-extended", "u@example.com", []string{"g5", "g1"}, true},
+		{"groups-claim-omitted", "u@example.com", nil, true},
+		{"groups-empty-list", "u@example.com", []string{}, true},
+		{"groups-replaced", "u@example.com", []string{"g9", "g11"}, true},
+		{"email-foreign-domain", "u@evil.org", []string{"g1"}, true},
+		{"email-lookalike-domain", "u@evilexample.com", []string{"g1"}, true},
+		{"email-subdomain", "u@sub.example.com", []string{"g1"}, true},
+		// the refresh response marks the e-mail as unverified: the unchanged tree rejects the refreshed token and keeps
+		// the session as it was; whether that is acceptable is not for this check to decide (reported, not judged)
+		{"email-unverified", "u@example.com", []string{"g1"}, false},
+	}
+	var mu sync.Mutex
+	after := map[string]scenario{}
+	cw.w.IdP.Set(func(c *vfIdPCfg) {
+		c.MutateIDClaims = func(grant string, _ *vfAuthReq, claims map[string]interface{}) {
+			if grant != "refresh" {
+				return
+			}
+			sub, _ := claims["sub"].(string)
+			mu.Lock()
+			sc, ok := after[sub]
+			mu.Unlock()
+			if !ok {
+				return
+			}
+			claims["email"] = sc.email
+			if sc.groups == nil {
+				delete(claims, "groups")
+			} else {
+				claims["groups"] = sc.groups
+			}
+			if sc.label == "email-unverified" {
+				claims["email_verified"] = false
+			}
+		}
+	})
+	defer cw.w.IdP.Set(func(c *vfIdPCfg) { c.MutateIDClaims = nil })
+	sets := []c08RuleSet{
+		{Name: "refresh-group", Domains: []string{"*"}, Groups: []string{"g1"}},
+		{Name: "refresh-domain", Domains: []string{"example.com"}},
+		{Name: "refresh-domain+groups", Domains: []string{"example.com"}, Groups: []string{"g2", "g1"}, ErrMode: "json"},
+	}
+	n := 0
+	for _, rs := range sets {
+		for _, store := range []string{"cookie", "redis"} {
+			p, err := cw.w.NewProxy(append(cw.flags(rs, store, "host"), "--cookie-refresh=1h")...)
+			if err != nil {
+				run.T.Fatalf("c08: refresh instance %s/%s: %v", rs.Name, store, err)
+			}
+			for _, sc := range scenarios {
+				n++
+				sub := fmt.Sprintf("rf-%d", n)
+				// the userinfo endpoint supplies nothing: what the refreshed ID token omits is really gone
+				id := vfIdentity{Sub: sub, Email: "u@example.com", Groups: []string{"g1"}, PreferredUsername: "pu", Profile: map[string]interface{}{"sub": sub}}
+				b := vfNewBrowser("")
+				l, err := b.StartLogin(p, id, "/")
+				if err != nil {
+					run.T.Fatalf("c08: refresh login: %v", err)
+				}
+				clock.Set(time.Now().Add(-3 * time.Hour))
+				cb := b.Get(p, l.CallbackTarget(p))
+				clock.Reset()
+				if cb.Code != 302 {
+					run.T.Fatalf("c08: refresh login of a member refused: %d", cb.Code)
+				}
+				mu.Lock()
+				after[sub] = sc
+				mu.Unlock()
+				var groups []string
+				if g, ok := sc.groups.([]string); ok {
+					groups = g
+				}
+				allowed, _ := rs.allowed(sc.email, groups)
+				a0, _ := cw.w.IdP.RefreshGrants()
+				first := b.Get(p, "/x?first=1", "X-Vf-Id", fmt.Sprintf("c08rf-%d-first", n))
+				a1, _ := cw.w.IdP.RefreshGrants()
+				run.Count(fmt.Sprintf("refresh_first_request_status_%d", first.Code), 1)
+				if a1 == a0 {
+					run.Eval("")
+					run.Inconclusive("the stale session was not refreshed by the first request (no refresh grant reached the IdP)")
+					continue
+				}
+				run.Count("refreshes_observed", 1)
+				for t, target := range c08Targets {
+					rid := fmt.Sprintf("c08rf-%d-%d", n, t)
+					r := b.Get(p, target, "X-Vf-Id", rid)
+					hits := cw.w.Up.FindHit(rid)
+					served := len(hits) > 0 || (strings.HasPrefix(target, "/oauth2/auth") && r.Code == 202) ||
+						(strings.HasPrefix(target, "/oauth2/userinfo") && r.Code == 200 && strings.TrimSpace(string(r.Body)) != "{}")
+					if !sc.judged {
+						run.Count(fmt.Sprintf("observed(not judged) refresh marks the e-mail unverified: %s served=%v", target, served), 1)
+						continue
+					}
+					run.Eval(fmt.Sprintf("%s|refresh:%s|cookie|%s|%s|after-refresh|want=%v", rs.Name, sc.label, target, store, allowed))
+					wit := map[string]interface{}{"rule_set": rs, "store": store, "flags": p.Flags, "history": "login 3 h ago (imposed) as u@example.com groups [g1]; then the IdP answers refresh grants with e-mail " + sc.email + fmt.Sprintf(" and groups %v (nil = claim omitted, userinfo supplies none)", sc.groups) + "; first request performs the refresh, this is a later one",
+						"first_request_status": first.Code, "request": "GET " + target, "status": r.Code, "reference_allowed": allowed, "upstream_hits": hits, "cookies_in_browser": len(b.Jar.All())}
+					switch {
+					case r.Panic != "":
+						c08Violation(run, "c08:panic", "request handling panicked: "+vfTrunc(r.Panic, 200), wit)
+					case served && !allowed:
+						c08Violation(run, "c08:stale-attributes-after-refresh", fmt.Sprintf("rule set %q (%s store): after the refresh the provider says e-mail %+q groups %v [%s], which fails the rules, but GET %s is still served (status %d)",
+							rs.Name, store, sc.email, sc.groups, sc.label, target, r.Code), wit)
+					case served:
+						run.Count("served_after_refresh_within_rules", 1)
+					case allowed:
+						run.Count("allowed_but_not_served(not judged here: C01)", 1)
+					default:
+						run.Count("refused_after_refresh_outside_rules", 1)
+					}
+				}
+			}
+		}
+	}
+}
+
 func TestVerif_C08(t *testing.T) {
 	run := vfNewRun(t, "C08", "exploration")
 	run.SetRule("global rules: boundary e-mails (exact, case, sub-domain, look-alike prefix/suffix/dot, several '@', empty parts, spaces, wildcard literals, unicode, file members) + seeded grammar sample + boundary group lists + split-cookie sessions " +
-		"x 18 rule sets (exact, leading-dot, *., '*', several domains, e-mails file with case/space/comment/quoted variants, allowed groups, htpasswd) x {cookie, redis} x {cookie session after restart, bearer, htpasswd Basic, htpasswd form session} x {proxied path, auth-only, userinfo}; " +
-		"logins of failing identities; auth-only query constraints (3 kinds x absent/empty/match/no-match/lists/repeats/empty items/look-alikes) x 7 sessions x 2 instances; e-mails file rewritten between requests, including histories that end with a file without any address (empty, comments only; atomic rename and in place); logins of identities without any e-mail through --provider=adfs; e-mails file behind a symlink whose target is swapped (ConfigMap layout). " +
+		"x 18 rule sets (exact, leading-dot, *., '*', several domains, e-mails file with case/space/comment/quoted variants, allowed groups, htpasswd) x {cookie, redis} + 13 odd list shapes (blank items from trailing/leading/doubled commas, blank-only and quoted empty items, the same in a config file, '*' among others, '*.', '.', '*x', duplicates) on one store each, x {cookie session after restart, bearer, htpasswd Basic, htpasswd form session} x {proxied path, auth-only, userinfo}; " +
+		"logins of failing identities; auth-only query constraints (3 kinds x absent/empty/match/no-match/lists/repeats/empty items/look-alikes) x 7 sessions x 2 instances; e-mails file rewritten between requests, including histories that end with a file without any address (empty, comments only; atomic rename and in place); logins of identities without any e-mail through --provider=adfs; e-mails file behind a symlink whose target is swapped (ConfigMap layout); identity attributes (groups, e-mail) changed by the provider at a token refresh. " +
 		"cell = (rule set, e-mail class, source, endpoint, store, history, expected)")
 	run.Assume("e-mail rule semantics as documented: exact '@domain' suffix, '.d'/'*.d' = domain part ends with '.d', '*' = all, case-insensitive; file = exact lower-cased address",
 		"an 'e-mail' without '@' under a sub-domain rule is not judged", "auth-only constraints are judged in the only-if direction against the most permissive documented reading",
@@ -1447,10 +1675,31 @@ func TestVerif_C08(t *testing.T) {
 	}
 	for ri, r := range c08RuleSets() {
 		fam := []string{"host", "domain"}[ri%2]
-		for _, store := range []string{"cookie", "redis"} {
-			p, err := w.NewProxy(cw.flags(r, store, fam)...)
+		for si, store := range []string{"cookie", "redis"} {
+			if r.OneStore && si != (ri/2)%2 {
+				continue
+			}
+			var p *vfProxy
+			var err error
+			if r.CfgList {
+				// the list comes from the config file: no --email-domain flag may be present (BaseFlags has one)
+				var args []string
+				for _, a := range vfMergeFlags(w.BaseFlags(), cw.flags(r, store, fam)...) {
+					if !strings.HasPrefix(a, "--email-domain") {
+						args = append(args, a)
+					}
+				}
+				p, err = w.NewProxyRaw("", args)
+			} else {
+				p, err = w.NewProxy(cw.flags(r, store, fam)...)
+			}
 			if err != nil {
 				t.Fatalf("c08: rule set %s/%s: %v", r.Name, store, err)
+			}
+			// the configuration as parsed must have the shape the reference reads (item count only: the repository
+			// rewrites its copy of the list in place while building the validator)
+			if got := p.Opts.EmailDomains; len(got) != len(r.Domains) {
+				t.Fatalf("c08: rule set %s: the options hold %d items %q, the reference reads %q", r.Name, len(got), got, r.Domains)
 			}
 			cw.insts = append(cw.insts, &c08Inst{Rules: r, Store: store, Fam: fam, P: p})
 		}
@@ -1473,6 +1722,8 @@ func TestVerif_C08(t *testing.T) {
 	phase("reload", func() { c08Reload(cw) })
 	phase("logins_without_email", func() { c08NoEmailLogins(cw) })
 	phase("symlinked_file", func() { c08Symlinked(cw) })
+	w.Up.Reset()
+	phase("attributes_changed_at_refresh", func() { c08RefreshChanges(cw) })
 
 	cw.noteMu.Lock()
 	for k, v := range cw.notes {
@@ -1483,7 +1734,7 @@ func TestVerif_C08(t *testing.T) {
 	for _, c := range []struct {
 		name string
 		min  int64
-	}{{"served_allowed", 1000}, {"refused_disallowed", 1000}, {"refusals_with_cookie_deletion_checked", 500}, {"logins_refused_expected", 100}, {"logins_allowed_succeeded", 50}, {"authonly_202", 100}, {"authonly_refused", 100}, {"reloads_observed", 6}, {"sessions_split_over_several_cookies", 1}, {"emptied_lists_enforced", 4}, {"logins_without_email_refused", 8}, {"symlinked_reloads_observed", 4}} {
+	}{{"served_allowed", 1000}, {"refused_disallowed", 1000}, {"refusals_with_cookie_deletion_checked", 500}, {"logins_refused_expected", 100}, {"logins_allowed_succeeded", 50}, {"authonly_202", 100}, {"authonly_refused", 100}, {"reloads_observed", 6}, {"sessions_split_over_several_cookies", 1}, {"emptied_lists_enforced", 4}, {"logins_without_email_refused", 8}, {"symlinked_reloads_observed", 4}, {"refused_after_refresh_outside_rules", 30}, {"served_after_refresh_within_rules", 15}} {
 		if run.Counter(c.name) < c.min && run.Violations() == 0 {
 			fmt.Printf("INCONCLUSIVE property=C08 reason=counter %s=%d < %d: the workload did not exercise this outcome enough\n", c.name, run.Counter(c.name), c.min)
 			t.Fail()
